@@ -169,6 +169,18 @@ def _make_fault(rng, w: World, cls, fresh):
         t = rng.choice(cands)
         s = ["s", ""] if cls == "empty-symbol" else \
             rng.choice([["i", 5], ["none"], ["F", 1, 2]])
+        dcands = [t_ for t_ in derived
+                  if all(w.units_of(n) for n, _ in t_.defn)]
+        if dcands and cls == "empty-symbol" and rng.random() < 0.4:
+            # the same through derive_unit_from(..., symbol='')
+            t = rng.choice(dcands)
+            us = [rng.choice([u.sym for u in w.units_of(n)])
+                  for n, _ in t.defn]
+            e = ["m", V(t.name), "derive_unit_from", [U(x) for x in us],
+                 {"symbol": s}]
+            return Fault(cls, lambda k: [{"k": k, "e": e}],
+                         desc="%s.derive_unit_from(%s, symbol='')" %
+                         (t.name, us))
         if t.has_ref:
             e = M(V(t.name), "new_unit", s, ["s", "x"],
                   OP("*", ["i", 3], U(t.ref)))
